@@ -7,6 +7,7 @@ import Yae.Model.Unify
 import Yae.Driver.Wire
 import Yae.Driver.Lex
 import Yae.Driver.VmWire
+import Yae.Driver.Num
 namespace Yae.Driver
 open Yae SExp
 
@@ -69,7 +70,7 @@ def handle (req : SExp) : SExp :=
       | .ok v => .list [.atom "ok", valToSExp v, evs]
       | .error f => .list [.atom "fail", failToSExp f, evs]
     | _, _, _, _ => .atom "bad-request"
-  | _ => .atom "bad-request"
+  | _ => (handleNum req).getD (.atom "bad-request")
 
 partial def loop (hin hout : IO.FS.Stream) : IO Unit := do
   let line ← hin.getLine
